@@ -35,7 +35,7 @@ LD = np.longdouble
 # 0.994 r*; with CRPIX up to 4 image sizes outside, its normal equations on unscaled monomials are ill-conditioned and add
 # numerical noise of up to 3.2e-4 px when r* itself is ~1e-6 px (ratios up to 215), hence the separate floor there.
 FIT_ALLOWANCE = 3.0
-FIT_FLOOR_FAR = 2e-3
+FIT_FLOOR_FAR = 1e-5      # reference pixel outside the image (was 2e-3 while the fit used the normal equations, see DESIGN section 6)
 
 OBJ = {}          # id(WCS) -> {"header": dict, "calls": [...], "rstar": float|None}
 REPLAYING = [False]
@@ -45,7 +45,7 @@ def cases(seed, tier):
     n = 240 if tier == "quick" else 4800
     rng = np.random.default_rng([seed, 10])
     kinds = ["tan", "tpv", "sip", "tpv", "sip", "tpv-const", "sip-noinv", "tan"]
-    refs = ["any", "pole", "seam", "any", "southpole", "seam0"]
+    refs = ["any", "pole", "seam", "any", "southpole", "seam0", "far"]
     for i in range(n):
         yield {"family": kinds[i % len(kinds)], "ref": refs[(i // len(kinds)) % len(refs)], "sub": int(rng.integers(0, 2**31))}
 
@@ -61,10 +61,12 @@ def make_header(rng, fam, ref):
     c, sn = np.cos(th), np.sin(th)
     h = {"naxis1": nx, "naxis2": ny, "cunit1": "deg", "cunit2": "deg",
          "cd1_1": -s * c * flip, "cd1_2": s * sn, "cd2_1": s * sn * flip, "cd2_2": s * c}
-    if rng.random() < .6:
+    if rng.random() < .6 and ref != "far":
         h["crpix1"], h["crpix2"] = float(rng.uniform(1, nx)), float(rng.uniform(1, ny))
     else:
-        k = float(rng.uniform(0.5, 4))
+        # (ref "far": the reference pixel up to 10 image sizes away on at least one axis, where the offsets are all of one
+        # sign and nearly equal and the monomials nearly dependent)
+        k = float(rng.uniform(0.5, 4)) if ref != "far" else float(rng.uniform(3, 10))
         h["crpix1"] = float(nx / 2 + rng.choice([-1, 1]) * k * nx * rng.uniform(0.3, 1))
         h["crpix2"] = float(ny / 2 + rng.choice([-1, 1]) * k * ny * rng.uniform(0.3, 1))
     if rng.random() < .2:
@@ -104,10 +106,15 @@ def make_header(rng, fam, ref):
     elif fam.startswith("sip"):
         h["ctype1"], h["ctype2"] = "RA---TAN-SIP", "DEC--TAN-SIP"
         order = int(rng.integers(2, 5))
-        h["a_order"], h["b_order"] = order, order
+        orders = {"a": order, "b": order}
+        if rng.random() < .4:
+            # the convention gives each axis its own order
+            orders = {"a": int(rng.integers(2, 5)), "b": int(rng.integers(2, 5))}
+            order = max(orders.values())
+        h["a_order"], h["b_order"] = orders["a"], orders["b"]
         for pre in ("a", "b"):
-            for p in range(order + 1):
-                for q in range(order + 1 - p):
+            for p in range(orders[pre] + 1):
+                for q in range(orders[pre] + 1 - p):
                     if p + q >= 2 and rng.random() < .8:
                         h["%s_%d_%d" % (pre, p, q)] = float(rng.uniform(-1, 1) * amp / D ** (p + q - 1))
         if fam != "sip-noinv":
